@@ -145,17 +145,17 @@ type repType struct {
 
 // The hprose lanes: 12 representative types of the C01 universe.
 var hproseReps = []repType{
-	{tInt, []int{0, 8, 4}, []int{1, 11}},           // -1, MaxInt32+1, 10 | 0, MinInt64
-	{tInt64, []int{8, 9, 0}, []int{6, 1}},          // MaxInt64, MinInt64, -1 | MaxInt32+1, 0
-	{tUint64, []int{7, 0, 5}, []int{6, 4}},         // MaxUint64, 1, MaxInt64 | MaxInt64+1, MaxInt32+1
-	{tFloat64, []int{0, 5, 14}, []int{2, 9, 12}},   // 1.5, 0.1, NaN | -0, MaxFloat64, +Inf
-	{tString, []int{0, 1, 5}, []int{4, 9, 2, 7}},   // "ab", "", astral | "你好", quoted, "a", "\xff"
-	{tBytes, []int{0, 1, 4}, []int{2, 5}},          // {1,2,255}, nil, "\"};" | {}, "hello world"
-	{tInts, []int{6, 0, 2}, []int{1, 5}},           // {-1,0,1}, nil, {-1} | {}, {0,-1}
-	{tMapSI, []int{5, 0, 2}, []int{1, 3}},          // 5 entries, nil, {"ab":-1} | {}, {"":0}
-	{tInner, []int{3, 0, 1}, []int{2}},             // {1,"ab"}, zero, {-1,""} | {0,"a"}
-	{tPInner, []int{4, 0, 2}, []int{1, 3}},         // &{1,"ab"}, nil, &{-1,""} | &zero, &{0,"a"}
-	{tTime, []int{0, 1, 9}, []int{2, 11, 15, 5}},   // UTC, local, ms UTC | zero, ns, UTC+8, time-only
+	{tInt, []int{0, 8, 4}, []int{1, 11}},            // -1, MaxInt32+1, 10 | 0, MinInt64
+	{tInt64, []int{8, 9, 0}, []int{6, 1}},           // MaxInt64, MinInt64, -1 | MaxInt32+1, 0
+	{tUint64, []int{7, 0, 5}, []int{6, 4}},          // MaxUint64, 1, MaxInt64 | MaxInt64+1, MaxInt32+1
+	{tFloat64, []int{0, 5, 14}, []int{2, 9, 12}},    // 1.5, 0.1, NaN | -0, MaxFloat64, +Inf
+	{tString, []int{0, 1, 5}, []int{4, 9, 2, 7}},    // "ab", "", astral | "你好", quoted, "a", "\xff"
+	{tBytes, []int{0, 1, 4}, []int{2, 5}},           // {1,2,255}, nil, "\"};" | {}, "hello world"
+	{tInts, []int{6, 0, 2}, []int{1, 5}},            // {-1,0,1}, nil, {-1} | {}, {0,-1}
+	{tMapSI, []int{5, 0, 2}, []int{1, 3}},           // 5 entries, nil, {"ab":-1} | {}, {"":0}
+	{tInner, []int{3, 0, 1}, []int{2}},              // {1,"ab"}, zero, {-1,""} | {0,"a"}
+	{tPInner, []int{4, 0, 2}, []int{1, 3}},          // &{1,"ab"}, nil, &{-1,""} | &zero, &{0,"a"}
+	{tTime, []int{0, 1, 9}, []int{2, 11, 15, 5}},    // UTC, local, ms UTC | zero, ns, UTC+8, time-only
 	{tIface, []int{1, 4, 16}, []int{19, 26, 18, 7}}, // nil, true, [1,"ab",nil] | map, &Inner, ["ab","ab"], MaxInt64
 }
 
@@ -186,8 +186,8 @@ func jsonReps() []struct {
 }
 
 var (
-	hvals []aval // hprose alphabet (full = thorough; Core marks the quick subset)
-	jvals []aval // JSON alphabet
+	hvals          []aval // hprose alphabet (full = thorough; Core marks the quick subset)
+	jvals          []aval // JSON alphabet
 	htypes, jtypes []reflect.Type
 )
 
@@ -296,10 +296,11 @@ const (
 	hdrTyped
 	hdrShared
 	hdrPreset
+	hdrPresetOff
 	numHdr
 )
 
-var hdrNames = []string{"none", "one-string", "typed", "shared-with-args", "preset-simple"}
+var hdrNames = []string{"none", "one-string", "typed", "shared-with-args", "preset-simple", "preset-simple-false"}
 
 type hdrSet struct {
 	make  func() map[string]interface{}
@@ -335,8 +336,11 @@ func buildHeaders() {
 			return map[string]interface{}{"i": 1, "neg": -5, "big": int64(1) << 40, "f": 1.5, "s": "你好", "e": "", "b": true, "n": nil,
 				"l": []interface{}{1, "ab"}, "m": map[string]interface{}{"k": 1}, "st": gen.Inner{A: 1, B: "x"}, "t": tm}
 		},
-		func() map[string]interface{} { return map[string]interface{}{"k": "ab", "ab": "ab", "p": sharedP, "你好": "\U0001F600"} },
+		func() map[string]interface{} {
+			return map[string]interface{}{"k": "ab", "ab": "ab", "p": sharedP, "你好": "\U0001F600"}
+		},
 		func() map[string]interface{} { return map[string]interface{}{"simple": true, "id": "ab"} },
+		func() map[string]interface{} { return map[string]interface{}{"simple": false, "id": "ab"} },
 	}
 	j := [numHdr]func() map[string]interface{}{
 		h[0], h[1],
@@ -344,8 +348,10 @@ func buildHeaders() {
 			return map[string]interface{}{"i": 1, "neg": -5, "f": 1.5, "s": "你好", "e": "", "b": true, "n": nil,
 				"l": []interface{}{1, "ab"}, "m": map[string]interface{}{"k": 1}}
 		},
-		func() map[string]interface{} { return map[string]interface{}{"k": "ab", "ab": "ab", "你好": "\U0001F600"} },
-		h[4],
+		func() map[string]interface{} {
+			return map[string]interface{}{"k": "ab", "ab": "ab", "你好": "\U0001F600"}
+		},
+		h[4], h[5],
 	}
 	for i := 0; i < numHdr; i++ {
 		hdrH[i] = hdrSet{make: h[i], canon: gen.Canon(reflect.ValueOf(withoutSimple(h[i]()))), prof: gen.ProfileOf(reflect.ValueOf(h[i]()))}
@@ -399,7 +405,10 @@ var errCases = []errCase{
 	{"punct", func() error { return errors.New("a\"b;\r\n{}z") }, "a\"b;\r\n{}z", false},
 	{"long", func() error { return errors.New(strings.Repeat("0123456789", 30)) }, strings.Repeat("0123456789", 30), false},
 	{"wrapped", func() error { return fmt.Errorf("outer: %w", errors.New("inner")) }, "outer: inner", false},
-	{"panic-string", func() error { return &core.PanicError{Panic: "pboom", Stack: []byte("goroutine 1 [running]:\nmain.f()\n\t/x.go:1 +0x1\n")} }, "pboom", true},
+	{"invalid-utf8", func() error { return errors.New("a\xffb") }, "a\xffb", false},
+	{"panic-string", func() error {
+		return &core.PanicError{Panic: "pboom", Stack: []byte("goroutine 1 [running]:\nmain.f()\n\t/x.go:1 +0x1\n")}
+	}, "pboom", true},
 	{"panic-int", func() error { return &core.PanicError{Panic: 42, Stack: []byte("S")} }, "42", true},
 	{"panic-error-nostack", func() error { return &core.PanicError{Panic: errors.New("inner 你好")} }, "inner 你好", true},
 	{"panic-real", func() error { return realPanic }, "real panic", true},
@@ -409,7 +418,7 @@ var errCases = []errCase{
 // ---- shapes ----
 
 var reqShapes = []string{"exact", "iface", "conv", "ptr", "fewer-params", "more-params", "variadic-one", "variadic-all",
-	"variadic-empty", "variadic-iface", "variadic-iface-tail", "missing"}
+	"variadic-empty", "variadic-iface", "variadic-iface-tail", "missing", "variadic-short"}
 
 // reqShapesIface are the shapes in which some argument lands in an interface{} destination (so that the
 // decoder settings matter for the arguments).
@@ -545,6 +554,9 @@ func reqShape(shape string, args []*aval, json bool) (si shapeInfo) {
 		}
 	case "variadic-empty":
 		si.params = append(append([]reflect.Type{}, ex...), tInts)
+		si.variadic, si.dest = true, ex
+	case "variadic-short": // fewer arguments than the fixed parameters of a variadic method
+		si.params = append(append([]reflect.Type{}, ex...), tInt, tInts)
 		si.variadic, si.dest = true, ex
 	case "variadic-iface":
 		si.ok = n >= 1
